@@ -19,12 +19,22 @@ CHECKS = {
             'TensorWal::append/maybe_sync/sync/fsync, R02b tail repair on reopen, R02c checkpoint order snapshot→marker→truncate and '
             'the Checkpoint arm of recovery, R02d rotation writer/reader agreement, R02e replay stops at the first bad record',
             'MIR cut-reachability with constant propagation, call-graph reachability, must-pass-through'),
+    'C03': ('§3 C03', 'R03a writes applied only from the participant\'s commit and no store write outside the undo log on prepare/abort/'
+            'cleanup/recover, R03b remove→apply→release in the participant, R03c decision discipline over every write to the '
+            'transaction phase (never reversed; commit only through all_voted ∧ all_yes), R03d decisions on Prepared transactions and '
+            'completion are logged before release, R03e no unlogged removal of a logged transaction',
+            'MIR reachability under a phase assumption (abstract evaluation of phase tests), cut-reachability over Ok-edges, call-graph effect rule'),
     'C10': ('§3 C10', 'R01a persist-before-mutate of term/vote (cut-reachability over Ok-edges of the persist call, all write sites '
             'in the workspace), R10a every log growth site reaches success only through a successful persist, R10c recovery '
             'table covers every record the node writes and keeps the first vote of a term, R02b tail repair on reopen, R02e replay '
             'stops at the first bad record',
             'MIR dominance / cut-reachability, who-may-write, writer/reader table agreement'),
 }
+
+CHECKS['C13'] = ('§3 C13', 'R02b tail repair of the transaction log on reopen, R02e replay stops at the first bad record, R03c/R03d/R03e '
+                 'decision and completion logging discipline of the coordinator, R13a phase table agreement between what the coordinator '
+                 'logs and what recovery restores (with lock handles), R13b recovery consumes every list its classification fills',
+                 'MIR reachability under a phase assumption, writer/reader table agreement, field read/write sets')
 
 NOT_APPLICABLE = {
     'C18': 'optimality and textbook agreement of path/graph algorithms are facts about computed values on arbitrary graphs; '
